@@ -88,7 +88,7 @@ Section M.
   Theorem l_backup_kept s o : (match o with OpUpdate _ _ _ _ _ b => b = false | OpDelete _ b => b = false | _ => True end) ->
     m_bak (fst (step s o)) = m_bak s.
   Proof.
-    destruct o as [fs strat spec w fail b|ids b|p c l|]; intros H; try subst b; try reflexivity.
+    destruct o as [fs strat spec w fail b|ids b|p c l rt|]; intros H; try subst b; try reflexivity.
     - cbn [step]. unfold do_update.
       destruct (match fail with Some k => Nat.leb k (length fs) | None => false end
                 && Nat.leb (length match fail with Some k => firstn k fs | None => fs end) w); [reflexivity|].
@@ -141,7 +141,7 @@ Section M.
 
   Theorem l_step_ids_unique s o : NoDup (ids (m_disk s)) -> NoDup (ids (m_disk (fst (step s o)))).
   Proof.
-    intros Hnd. destruct o as [fs strat spec w fail b|idl b|p c l|]; cbn [step].
+    intros Hnd. destruct o as [fs strat spec w fail b|idl b|p c l rt|]; cbn [step].
     - unfold do_update.
       destruct (match fail with Some k => Nat.leb k (length fs) | None => false end
                 && Nat.leb (length match fail with Some k => firstn k fs | None => fs end) w); [exact Hnd|].
@@ -165,7 +165,9 @@ Section M.
       + pose proof (G (f0 :: av)) as G'. destruct (run_track call strat spec (f0 :: av) (with_auto (m_disk s) (m_mem s))) as [r mem']. exact G'.
       + pose proof (G (f0 :: av)) as G'. destruct (run_track call strat spec (f0 :: av) (with_auto (m_disk s) (m_mem s))) as [r mem']. exact G'.
     - cbn. unfold ids. cbn. apply filter_ids_NoDup. exact Hnd.
-    - unfold do_addrel. destruct (negb _ || negb _); [exact Hnd|]. destruct (has_rel _ _); exact Hnd.
+    - unfold do_addrel. destruct (negb _ || negb _); [exact Hnd|]. destruct (has_rel _ _); [exact Hnd|].
+      destruct rt; [|exact Hnd]. unfold ids in *. cbn [m_disk fst s_rows]. rewrite ids_update; [exact Hnd|].
+      intros r. unfold set_bin. rewrite r_id_setf. reflexivity.
     - exact Hnd.
   Qed.
 
@@ -192,3 +194,186 @@ Section M.
     unfold ids. cbn [s_rows]. rewrite map_app. apply in_or_app. right. left. reflexivity.
   Qed.
 End M.
+
+(* ---------- id counters never run backwards ---------- *)
+Definition cle (a b : counters) : Prop := forall k, auto_get k a <= auto_get k b.
+
+Lemma cle_refl a : cle a a. Proof. intros k. lia. Qed.
+Lemma cle_trans a b c : cle a b -> cle b c -> cle a c.
+Proof. intros H1 H2 k. specialize (H1 k). specialize (H2 k). lia. Qed.
+
+Lemma cle_incr k a : cle a (snd (auto_incr k a)).
+Proof.
+  intros k'. destruct (l_auto_incr k a) as [_ [E1 E2]]. destruct (str_eqb k k') eqn:E.
+  - apply str_eqb_eq in E. subst k'. rewrite E1. lia.
+  - apply str_eqb_neq in E. rewrite (E2 k' E). lia.
+Qed.
+
+Section Mono.
+  Variable call : nat -> row -> option str.
+
+  Lemma try_keys_cle : forall ks f a id a', try_keys call ks f a = Ok (id, a') -> cle a a'.
+  Proof.
+    induction ks as [|k ks IH]; intros f a id a' H.
+    - cbn in H. inversion H. apply cle_incr.
+    - cbn [try_keys] in H. destruct k as [k|n].
+      + destruct (is_field_form k).
+        * destruct (field_named (inner k)); [inversion H; apply cle_refl|discriminate].
+        * destruct (dget k (r_attrs f)) as [[|v [|v2 vs]]|]; try (eapply IH; exact H); try discriminate.
+          inversion H. apply cle_refl.
+      + destruct (call n f) as [[|c s]|]; try (eapply IH; exact H).
+        destruct (startswith (c :: s) AUTOINC); inversion H; [apply cle_incr|apply cle_refl].
+  Qed.
+
+  Lemma id_handler_cle spec f a id a' : id_handler call spec f a = Ok (id, a') -> cle a a'.
+  Proof.
+    unfold id_handler. destruct spec as [ks|d].
+    - apply try_keys_cle.
+    - destruct (dict_spec d (r_ftype f)); [apply try_keys_cle|]. intros H. inversion H. apply cle_incr.
+  Qed.
+
+  Lemma fresh_auto_cle : forall fuel base rows a nid a', fresh_auto fuel base rows a = Some (nid, a') -> cle a a'.
+  Proof.
+    induction fuel as [|fuel IH]; intros base rows a nid a' H; cbn [fresh_auto] in H;
+      pose proof (cle_incr base a) as L; destruct (auto_incr base a) as [n1 a1]; cbn [snd] in L;
+      destruct (has_id n1 rows).
+    - discriminate.
+    - inversion H; subst. exact L.
+    - eapply cle_trans; [exact L|eapply IH; exact H].
+    - inversion H; subst. exact L.
+  Qed.
+
+  Definition out_auto (o : outcome) : counters := match o with OSkip st => s_auto st | OStored st _ => s_auto st end.
+
+  Lemma create_unique_cle st f b o : create_unique st f b = Ok o -> cle (s_auto st) (out_auto o).
+  Proof.
+    unfold create_unique. destruct (fresh_auto (length (s_rows st)) (r_id f) (s_rows st) (s_auto st)) as [[nid a]|] eqn:E; [|discriminate].
+    intros H. inversion H. cbn. eapply fresh_auto_cle. exact E.
+  Qed.
+
+  Lemma do_merge_cle strat force st f o : do_merge strat force st f = Ok o -> cle (s_auto st) (out_auto o).
+  Proof.
+    unfold do_merge. destruct strat.
+    - discriminate.
+    - intros H. inversion H. apply cle_refl.
+    - intros H. inversion H. apply cle_refl.
+    - apply create_unique_cle.
+    - destruct (rev (filter (same_checked force f) (candidates st (r_id f)))); [apply create_unique_cle|].
+      intros H. inversion H. apply cle_refl.
+  Qed.
+
+  Lemma store_cle strat force spec st f0 o : store call strat force spec st f0 = Ok o -> cle (s_auto st) (out_auto o).
+  Proof.
+    unfold store. destruct (id_handler call spec f0 (s_auto st)) as [[id a]|e] eqn:E; [|discriminate].
+    pose proof (id_handler_cle _ _ _ _ _ E) as L. cbn [s_rows].
+    destruct (has_id id (s_rows st)).
+    - intros H. apply do_merge_cle in H. cbn [s_auto] in H. eapply cle_trans; eassumption.
+    - intros H. inversion H. cbn. exact L.
+  Qed.
+
+  Lemma step_gff_cle strat force spec st f0 st' : step_gff call strat force spec st f0 = Ok st' -> cle (s_auto st) (s_auto st').
+  Proof.
+    unfold step_gff. destruct (store call strat force spec st f0) as [o|e] eqn:E; [|discriminate].
+    pose proof (store_cle _ _ _ _ _ _ E) as L. destruct o as [s1|s1 id]; intros H; inversion H; subst; exact L.
+  Qed.
+
+  Lemma after_failed_cle spec st f : cle (s_auto st) (auto_after_failed_step call spec st f).
+  Proof.
+    unfold auto_after_failed_step. destruct (id_handler call spec f (s_auto st)) as [[id a]|e] eqn:E; [|apply cle_refl].
+    eapply id_handler_cle. exact E.
+  Qed.
+
+  Lemma run_track_cle strat spec : forall fs st, cle (s_auto st) (snd (run_track call strat spec fs st)) /\
+    forall st', fst (run_track call strat spec fs st) = Ok st' -> s_auto st' = snd (run_track call strat spec fs st).
+  Proof.
+    induction fs as [|f fs IH]; intros st; [split; [apply cle_refl|intros st' H; inversion H; reflexivity]|].
+    cbn [run_track]. destruct (step_gff call strat [] spec st f) as [s1|e] eqn:E.
+    - destruct (IH s1) as [A B]. split; [|exact B]. eapply cle_trans; [eapply step_gff_cle; exact E|exact A].
+    - cbn [fst snd]. split; [apply after_failed_cle|discriminate].
+  Qed.
+End Mono.
+
+Lemma auto_get_app k a b : auto_get k (a ++ b) = if has_key k a then auto_get k a else auto_get k b.
+Proof.
+  induction a as [|[k' n] a IH]; [reflexivity|]. cbn [app auto_get has_key existsb fst]. destruct (str_eqb k k'); [reflexivity|exact IH].
+Qed.
+
+Lemma auto_get_filter_other k m : has_key k m = false -> forall t, auto_get k (filter (fun kn => negb (has_key (fst kn) m)) t) = auto_get k t.
+Proof.
+  intros H. induction t as [|[k' n] t IH]; [reflexivity|]. cbn [filter fst]. destruct (has_key k' m) eqn:E; cbn [negb].
+  - cbn [auto_get]. destruct (str_eqb k k') eqn:E2; [apply str_eqb_eq in E2; subst k'; congruence|exact IH].
+  - cbn [auto_get]. destruct (str_eqb k k'); [reflexivity|exact IH].
+Qed.
+
+Lemma auto_get_nokey k m : has_key k m = false -> auto_get k m = 0.
+Proof.
+  induction m as [|[k' n] m IH]; [reflexivity|]. cbn [has_key existsb fst auto_get]. destruct (str_eqb k k'); [discriminate|]. exact IH.
+Qed.
+
+Lemma get_persist k t m : auto_get k (persist t m) = if has_key k m then auto_get k m else auto_get k t.
+Proof.
+  unfold persist. rewrite auto_get_app. destruct (has_key k m) eqn:E; [reflexivity|]. apply auto_get_filter_other. exact E.
+Qed.
+
+Lemma persist_cle_table t m : cle t m -> cle t (persist t m).
+Proof. intros H k. rewrite get_persist. destruct (has_key k m); [apply H|lia]. Qed.
+
+Lemma persist_cle_mem t m : cle t m -> cle (persist t m) m.
+Proof.
+  intros H k. rewrite get_persist. destruct (has_key k m) eqn:E; [lia|]. specialize (H k). rewrite (auto_get_nokey k m E) in *. exact H.
+Qed.
+
+Section Hist.
+  Variable call : nat -> row -> option str.
+
+  (* the table never lags ahead of the open object's counters *)
+  Definition Linv (s : mstate) : Prop := cle (s_auto (m_disk s)) (m_mem s).
+
+  Lemma opened_Linv d : Linv (opened d).
+  Proof. apply cle_refl. Qed.
+
+  Theorem l_step_counters s o : Linv s ->
+    Linv (fst (step call s o)) /\ cle (s_auto (m_disk s)) (s_auto (m_disk (fst (step call s o)))).
+  Proof.
+    intros L. unfold Linv in *. destruct o as [fs strat spec w fail b|idl b|p c l rt|]; cbn [step].
+    - unfold do_update.
+      destruct (match fail with Some k => Nat.leb k (length fs) | None => false end
+                && Nat.leb (length match fail with Some k => firstn k fs | None => fs end) w); [split; [exact L|apply cle_refl]|].
+      set (avail := match fail with Some k => firstn k fs | None => fs end).
+      set (fails := match fail with Some k => Nat.leb k (length fs) | None => false end).
+      assert (G : forall l0, let '(r, mem') := run_track call strat spec l0 (with_auto (m_disk s) (m_mem s)) in
+                  let res := match r with
+                    | Err e => (mkM (m_disk s) mem' (if b then Some (m_disk s) else m_bak s), Err e)
+                    | Ok st' => if fails then (mkM (m_disk s) mem' (if b then Some (m_disk s) else m_bak s), Err EOther)
+                                else match update_relations_gff st' with
+                                     | Err e => (mkM (with_auto st' (s_auto (m_disk s))) mem' (if b then Some (m_disk s) else m_bak s), Err e)
+                                     | Ok st'' => (mkM (with_auto st'' (persist (s_auto (m_disk s)) mem')) mem' (if b then Some (m_disk s) else m_bak s), Ok tt)
+                                     end end in
+                  cle (s_auto (m_disk (fst res))) (m_mem (fst res)) /\ cle (s_auto (m_disk s)) (s_auto (m_disk (fst res)))).
+      { intros l0. destruct (run_track_cle call strat spec l0 (with_auto (m_disk s) (m_mem s))) as [A _].
+        destruct (run_track call strat spec l0 (with_auto (m_disk s) (m_mem s))) as [r mem']. cbn [snd with_auto s_auto] in A.
+        assert (Lm : cle (s_auto (m_disk s)) mem') by (eapply cle_trans; eassumption).
+        destruct r as [st'|e]; [|split; [exact Lm|apply cle_refl]].
+        destruct fails; [split; [exact Lm|apply cle_refl]|].
+        destruct (update_relations_gff st') as [st''|e]; cbn [fst m_disk m_mem with_auto s_auto].
+        - split; [apply persist_cle_mem; exact Lm|apply persist_cle_table; exact Lm].
+        - split; [exact Lm|apply cle_refl]. }
+      destruct avail as [|f0 av] eqn:Ea; destruct fails eqn:Ef.
+      + pose proof (G []) as G'. cbn in G'. exact G'.
+      + split; [exact L|apply cle_refl].
+      + pose proof (G (f0 :: av)) as G'. destruct (run_track call strat spec (f0 :: av) (with_auto (m_disk s) (m_mem s))) as [r mem']. exact G'.
+      + pose proof (G (f0 :: av)) as G'. destruct (run_track call strat spec (f0 :: av) (with_auto (m_disk s) (m_mem s))) as [r mem']. exact G'.
+    - cbn. split; [exact L|apply cle_refl].
+    - unfold do_addrel. destruct (negb _ || negb _); [split; [exact L|apply cle_refl]|]. destruct (has_rel _ _); split; try exact L; apply cle_refl.
+    - cbn. split; apply cle_refl.
+  Qed.
+
+  (* over every history: the persisted counters only grow, so numbering continues across updates AND
+     reopenings and a number once written to the table is never handed out again *)
+  Theorem l_history_counters : forall ops s, Linv s ->
+    Linv (run call s ops) /\ cle (s_auto (m_disk s)) (s_auto (m_disk (run call s ops))).
+  Proof.
+    induction ops as [|o ops IH]; intros s L; [split; [exact L|apply cle_refl]|]. cbn [Machine.run].
+    destruct (l_step_counters s o L) as [L1 M1]. destruct (IH _ L1) as [L2 M2]. split; [exact L2|]. eapply cle_trans; eassumption.
+  Qed.
+End Hist.
